@@ -67,9 +67,28 @@ deriving Repr
 def multipartLit : Bytes := [109, 117, 108, 116, 105, 112, 97, 114, 116, 47]          -- "multipart/"
 def boundaryLit : Bytes := [98, 111, 117, 110, 100, 97, 114, 121, 61, 34]             -- "boundary=\""
 
+/-- `strncasecmp(&a[i], &p[j], n) == 0`: compares `tolower` of the bytes, stops at the first difference, at a NUL, or
+after `n` bytes (/repo 098cbec). -/
+def strncasecmpEq (a : Buf) (i : Nat) (p : Buf) (j : Nat) : Nat → M Bool
+  | 0 => .ok true
+  | n + 1 =>
+    match a.get? i with
+    | .error e => .error e
+    | .ok x =>
+      match p.get? j with
+      | .error e => .error e
+      | .ok y =>
+        if tolower x != tolower y then .ok false
+        else if x == 0 then .ok true
+        else strncasecmpEq a (i + 1) p (j + 1) n
+
+/-- `strncasecmp(&b[i], lit, strlen(lit)) == 0` for a string literal. -/
+def startsWithLitCI (b : Buf) (i : Nat) (lit : Bytes) : M Bool :=
+  strncasecmpEq b i (Buf.ofBytes lit) 0 lit.length
+
 /-- `parseboundary(&t[i], &boundary)`. -/
 def parseBoundary (t : Buf) (i : Nat) : M Boundary :=
-  match startsWithLit t i multipartLit with
+  match startsWithLitCI t i multipartLit with
   | .error e => .error e
   | .ok false => .ok .notMultipart
   | .ok true =>
@@ -84,7 +103,7 @@ def parseBoundary (t : Buf) (i : Nat) : M Boundary :=
           match skipBlanks t (s1 + 1) with                 -- str++; str += nspaces(str)
           | .error e => .error e
           | .ok s2 =>
-            match startsWithLit t s2 boundaryLit with
+            match startsWithLitCI t s2 boundaryLit with
             | .error e => .error e
             | .ok false => .ok .notMultipart
             | .ok true =>
